@@ -318,7 +318,21 @@ type scanOutcome struct {
 	PanicAt  ssa.Instruction
 	Colons   int // number of decisions "current character == ':'" taken as true on the path
 	St       *AState
+	// Spans: for every conversion of a piece of the expression text to a number on
+	// the path, the slice bounds handed to it and the number of characters the
+	// token had consumed at that moment (positions are relative: the token starts
+	// at tokenStart)
+	Spans []numSpan
 }
+
+type numSpan struct {
+	Lo, Hi   int64
+	Known    bool // both bounds are constants
+	Consumed int64
+	At       ssa.Instruction
+}
+
+const tokenStart = 100
 
 const consumedField = 100000
 
@@ -336,6 +350,7 @@ func (w *World) scanFromEOF(g *Grammar, c rune, eofAfter int) []scanOutcome {
 	tabs := w.rangeTables()
 	currIdx := fieldIndex(g.ScannerT, g.CurrField)
 	tokIdx := fieldIndex(g.ScannerT, g.TokField)
+	posIdx, sizeIdx, textIdx := w.scannerPosFields(g)
 	hooks := AHooks{}
 	hooks.Global = func(st *AState, gl *ssa.Global) *AObj {
 		if v, ok := gl.Object().(*types.Var); ok {
@@ -363,10 +378,41 @@ func (w *World) scanFromEOF(g *Grammar, c rune, eofAfter int) []scanOutcome {
 			}
 			return true, aUnknown(nil)
 		}
+		// a piece of the expression text converted to a number: which piece
+		if callee != nil && callee.String() == "strconv.ParseFloat" && len(args) >= 1 {
+			sp := numSpan{At: site}
+			if e := args[0].Expr; e != nil && e.Call == "slice" && len(e.Args) == 3 && e.Args[0].Tag == "text" {
+				lo, ok1 := e.Args[1].Int()
+				hi, ok2 := e.Args[2].Int()
+				if e.Args[1].Kind == avNil {
+					lo, ok1 = 0, false
+				}
+				sp.Lo, sp.Hi, sp.Known = lo, hi, ok1 && ok2
+			}
+			sp.Consumed = -1
+			for _, ob := range st.heap {
+				if v, ok := ob.Fields[consumedField]; ok {
+					if t, ok := v.Str(); ok {
+						sp.Consumed = int64(len(t))
+					}
+				}
+			}
+			st.Trace = append(st.Trace, AEvent{Kind: "numspan", Site: site, Args: []AVal{aInt(sp.Lo), aInt(sp.Hi), aBool(sp.Known), aInt(sp.Consumed)}})
+			return true, AVal{Kind: avTuple, Tup: []AVal{{Kind: avUnknown, Tag: "number"}, {Kind: avNil}}}
+		}
 		if callee != g.NextChar || len(args) == 0 || args[0].Kind != avPtr {
 			return false, AVal{}
 		}
 		o := st.obj(args[0].Obj)
+		// positions relative to the start of the token (ASCII characters: one byte each)
+		if posIdx >= 0 {
+			if p, ok := o.Fields[posIdx].Int(); ok {
+				o.Fields[posIdx] = aInt(p + 1)
+			}
+		}
+		if sizeIdx >= 0 {
+			o.Fields[sizeIdx] = aInt(1)
+		}
 		text, _ := o.Fields[consumedField].Str()
 		if k, ok := o.Fields[currIdx].Int(); ok {
 			text += string(rune(k))
@@ -437,6 +483,12 @@ func (w *World) scanFromEOF(g *Grammar, c rune, eofAfter int) []scanOutcome {
 	sc := st.externObj(g.ScannerT, nil)
 	sc.Fields[currIdx] = aInt(int64(c))
 	sc.Fields[consumedField] = aStr("")
+	if posIdx >= 0 && sizeIdx >= 0 && textIdx >= 0 {
+		// the first character of the token has been read: the position is one past it
+		sc.Fields[posIdx] = aInt(tokenStart + 1)
+		sc.Fields[sizeIdx] = aInt(1)
+		sc.Fields[textIdx] = AVal{Kind: avUnknown, Tag: "text"}
+	}
 	outs := ai.Exec(g.NextItem, []AVal{{Kind: avPtr, Obj: sc, Field: -1}}, nil, st)
 	var res []scanOutcome
 	for _, o := range outs {
@@ -450,6 +502,13 @@ func (w *World) scanFromEOF(g *Grammar, c rune, eofAfter int) []scanOutcome {
 			so.PanicAt = o.At
 		}
 		for _, ev := range o.St.Trace {
+			if ev.Kind == "numspan" && len(ev.Args) == 4 {
+				lo, _ := ev.Args[0].Int()
+				hi, _ := ev.Args[1].Int()
+				kn, _ := ev.Args[2].Bool()
+				cn, _ := ev.Args[3].Int()
+				so.Spans = append(so.Spans, numSpan{Lo: lo, Hi: hi, Known: kn, Consumed: cn, At: ev.Site})
+			}
 			if ev.Kind == "branch" && ev.Taken {
 				if ifi, ok := ev.Site.(*ssa.If); ok {
 					if bo, ok := ifi.Cond.(*ssa.BinOp); ok && bo.Op == token.EQL {
@@ -749,4 +808,39 @@ func sortedTexts(m map[string]int64) []string {
 	}
 	sort.Strings(s)
 	return s
+}
+
+// scannerPosFields: the scanner's position (the int field the primitive
+// consumer advances by adding to it), the size of the current character (the
+// other int field it stores) and the text (the string field it reads).
+func (w *World) scannerPosFields(g *Grammar) (posIdx, sizeIdx, textIdx int) {
+	posIdx, sizeIdx, textIdx = -1, -1, -1
+	sst := g.ScannerT.Underlying().(*types.Struct)
+	eachInstr(g.NextChar, false, func(_ *ssa.Function, in ssa.Instruction) {
+		switch x := in.(type) {
+		case *ssa.Store:
+			fa, ok := x.Addr.(*ssa.FieldAddr)
+			if !ok || !isIntType(sst.Field(fa.Field).Type()) {
+				return
+			}
+			if bt, ok := sst.Field(fa.Field).Type().Underlying().(*types.Basic); ok && bt.Kind() == types.Int32 {
+				return // the current character
+			}
+			if bo, ok := x.Val.(*ssa.BinOp); ok && bo.Op == token.ADD {
+				posIdx = fa.Field
+			} else if posIdx != fa.Field {
+				sizeIdx = fa.Field
+			}
+		case *ssa.UnOp:
+			if fa, ok := x.X.(*ssa.FieldAddr); ok && x.Op == token.MUL {
+				if bt, ok := sst.Field(fa.Field).Type().Underlying().(*types.Basic); ok && bt.Kind() == types.String {
+					textIdx = fa.Field
+				}
+			}
+		}
+	})
+	if sizeIdx == posIdx {
+		sizeIdx = -1
+	}
+	return
 }
